@@ -4,6 +4,8 @@ import (
 	"encoding/json"
 	"math/rand/v2"
 	"os"
+
+	"verif.local/vsync/kern"
 )
 
 type OpKind int
@@ -52,6 +54,7 @@ const (
 	FlagEmpty              // resolver update with an empty address list
 	FlagNilMsg             // nil request message
 	FlagChain              // caller's context derives from an earlier intercepted call's context
+	FlagRetry              // completed with an error, the call is attempted once more with the same context (gRPC's retries)
 	FlagRepick             // told to wait, the call is picked again (same context) once a newer picker exists, as gRPC does
 )
 
@@ -154,6 +157,8 @@ type Plan struct {
 	TwinStart bool `json:"twin_start,omitempty"`
 	// UniField: the key field addressed by the locator "name" is called "ключ"
 	UniField bool `json:"uni_field,omitempty"`
+	// MassKeys: the plan carries the "thousands of keys on stand-ins" fragment
+	MassKeys bool `json:"mass_keys,omitempty"`
 	// ScaleMix: the plan carries the "pool starts with 17-40 channels" fragment
 	ScaleMix bool `json:"scale_mix,omitempty"`
 	Ops      []Op `json:"ops"`
@@ -388,6 +393,9 @@ func Generate(r *rand.Rand, profile string, concurrent bool, av Avoid) *Plan {
 	if !concurrent && profile == "chaos" && r.IntN(4) == 0 {
 		p.LiveShutdown = true
 	}
+	if !concurrent && profile == "fallback" && r.IntN(8) == 0 {
+		p.LiveShutdown = true
+	}
 	if concurrent && (profile == "growth" || profile == "chaos") && r.IntN(8) == 0 {
 		// bursts too: from the first such report on only the crash / progress oracles
 		// and C03's "no growth while a channel is idle or connecting" remain
@@ -508,6 +516,9 @@ func Generate(r *rand.Rand, profile string, concurrent bool, av Avoid) *Plan {
 			}
 			if r.IntN(3) == 0 {
 				o.F |= FlagRepick
+			}
+			if r.IntN(4) == 0 {
+				o.F |= FlagRetry
 			}
 			if profile == "chaos" {
 				if r.IntN(12) == 0 {
@@ -798,6 +809,65 @@ func Generate(r *rand.Rand, profile string, concurrent bool, av Avoid) *Plan {
 			frag = append(frag, Op{K: OpPick, B: MPlain})
 		}
 		at := 1 + r.IntN(2)
+		ops := append([]Op{}, p.Ops[:at]...)
+		ops = append(ops, frag...)
+		p.Ops = append(ops, p.Ops[at:]...)
+	}
+	// Directed fragment (scale): more than four thousand keys live on stand-ins
+	// at once. A victim key is bound, then thousands more (BIND replies with a
+	// repeated key field); their home goes down (or is shut down under the pool
+	// where the plan allows that), the victim gets a stand-in that keeps a call
+	// in flight (so it is not the least busy channel afterwards), every other key
+	// is called once, then the victim again: same stand-in. Whatever a library
+	// does once a table holds thousands of entries happens here.
+	if ((profile == "fallback" && r.IntN(800) == 0 || profile == "load" && r.IntN(3000) == 0) || (profile == "fallback" || profile == "load") && os.Getenv("SIM_FORCE_MASS") != "") && !kern.RaceBuild && !concurrent && (p.Cfg.Locator == 2 || p.Cfg.Locator == 3) && !p.Cfg.RR && len(p.Ops) > 4 {
+		p.Cfg.Fallback = true
+		if p.Cfg.Min < 3 {
+			p.Cfg.Min = 3
+		}
+		if p.Cfg.Max != 0 && p.Cfg.Max < p.Cfg.Min {
+			p.Cfg.Max = p.Cfg.Min
+		}
+		if p.Cfg.WM != 0 && p.Cfg.WM < 4 {
+			p.Cfg.WM = 4
+		}
+		frag := []Op{}
+		for c := 0; c < 3; c++ {
+			frag = append(frag, Op{K: OpConn, A: c, B: ConnProgress}, Op{K: OpConn, A: c, B: ConnProgress})
+		}
+		victim := r.IntN(nKeys)
+		frag = append(frag, Op{K: OpPick, B: MBind, Keys: []int{0}}, Op{K: OpDone, A: -1, B: OutOK, Keys: []int{victim}})
+		total := 4100 + r.IntN(300)
+		if r.IntN(4) == 0 {
+			total = 8200 + r.IntN(200)
+		}
+		base := 3000
+		var all []int
+		for len(all) < total {
+			n := 500 + r.IntN(300)
+			ks := make([]int, n)
+			for j := range ks {
+				ks[j] = base + j
+			}
+			base += n
+			all = append(all, ks...)
+			frag = append(frag, Op{K: OpPick, B: MBind, Keys: []int{0}}, Op{K: OpDone, A: -1, B: OutOK, Keys: ks})
+		}
+		down := Op{K: OpConn, A: -4, B: ConnFail}
+		if r.IntN(2) == 0 || os.Getenv("SIM_FORCE_MASS") == "2" {
+			// the home is shut down under the pool (runs judged for crashes, progress
+			// and the clauses stated over observed states only, from there on)
+			p.LiveShutdown = true
+			down.B = ConnShutdown
+		}
+		// the victim's home first (it may be the same channel), then the home of the rest
+		frag = append(frag, down, down, Op{K: OpPick, B: MBound, Keys: []int{victim}})
+		for _, k := range all {
+			frag = append(frag, Op{K: OpPick, B: MBound, Keys: []int{k}}, Op{K: OpDone, A: -1, B: OutOK})
+		}
+		frag = append(frag, Op{K: OpPick, B: MBound, Keys: []int{victim}}, Op{K: OpPick, B: MBound, Keys: []int{all[0]}}, Op{K: OpPick, B: MBound, Keys: []int{victim}})
+		p.MassKeys = true
+		at := 1
 		ops := append([]Op{}, p.Ops[:at]...)
 		ops = append(ops, frag...)
 		p.Ops = append(ops, p.Ops[at:]...)
